@@ -50,6 +50,13 @@ func groupMapOf(re *regexp2.Regexp) string {
 
 // spellingsAgree compiles the spellings of (P, O) and compares them on inputs.
 func spellingsAgree(p string, o, base int, inputs [][]rune, st func(string)) (detail, incon string, matched int) {
+	return spellingsAgreeW(p, o, base, inputs, st, true)
+}
+
+// spellingsAgreeW: wrap=false leaves the wrapping spelling out (harvested patterns holding a '#':
+// once x is in effect - by the option set or by an inline (?x) of the pattern itself - an
+// unterminated comment would swallow the wrapper's closing parenthesis)
+func spellingsAgreeW(p string, o, base int, inputs [][]rune, st func(string), wrap bool) (detail, incon string, matched int) {
 	ls := lettersOf(o)
 	type variant struct {
 		name string
@@ -58,9 +65,17 @@ func spellingsAgree(p string, o, base int, inputs [][]rune, st func(string)) (de
 	}
 	vs := []variant{{"compile option", p, base | o}}
 	if ls != "" {
-		vs = append(vs, variant{"leading (?" + ls + ")", "(?" + ls + ")" + p, base}, variant{"wrapping (?" + ls + ":...)", "(?" + ls + ":" + p + ")", base})
-	} else {
-		vs = append(vs, variant{"wrapping (?:...)", "(?:" + p + ")", base})
+		vs = append(vs, variant{"leading (?" + ls + ")", "(?" + ls + ")" + p, base})
+	}
+	if wrap {
+		if ls != "" {
+			vs = append(vs, variant{"wrapping (?" + ls + ":...)", "(?" + ls + ":" + p + ")", base})
+		} else {
+			vs = append(vs, variant{"wrapping (?:...)", "(?:" + p + ")", base})
+		}
+	}
+	if len(vs) == 1 {
+		return "", "", 0
 	}
 	var res []*regexp2.Regexp
 	for _, v := range vs {
@@ -159,7 +174,11 @@ func replayC18(w core.Witness) string {
 		d, _ := scopingAgrees(a, b, c, o, w.Options, in, func(string) {})
 		return d
 	}
-	d, _, _ := spellingsAgree(w.Pattern, o, w.Options, in, func(string) {})
+	wrap := true
+	if v, ok := w.Args["wrap"].(bool); ok {
+		wrap = v
+	}
+	d, _, _ := spellingsAgreeW(w.Pattern, o, w.Options, in, func(string) {}, wrap)
 	return d
 }
 
@@ -236,12 +255,8 @@ func runC18(r *core.Run) int {
 					oset |= int(lt.opt)
 				}
 			}
-			if pc.pat == nil && oset&int(regexp2.IgnorePatternWhitespace) != 0 && strings.Contains(src, "#") {
-				// a harvested pattern may hold a '#' that is not newline-terminated: under x the
-				// wrapping spelling would comment out its own closing parenthesis
-				continue
-			}
-			detail, incon, matched := spellingsAgree(src, oset, baseOpts, inputs, st)
+			wrap := pc.pat != nil || !strings.Contains(src, "#")
+			detail, incon, matched := spellingsAgreeW(src, oset, baseOpts, inputs, st, wrap)
 			l.Eval(1)
 			if incon == "pattern-rejected" {
 				l.Count("pattern_rejected_under_option_set", 1)
@@ -255,10 +270,10 @@ func runC18(r *core.Run) int {
 				nontriv++
 			}
 			if detail != "" {
-				w := core.Witness{Pattern: src, Options: baseOpts, Args: map[string]any{"option_set": oset}}
+				w := core.Witness{Pattern: src, Options: baseOpts, Args: map[string]any{"option_set": oset, "wrap": wrap}}
 				// find the failing input for the replay
 				for _, in := range inputs {
-					if d, _, _ := spellingsAgree(src, oset, baseOpts, [][]rune{in}, func(string) {}); d != "" {
+					if d, _, _ := spellingsAgreeW(src, oset, baseOpts, [][]rune{in}, func(string) {}, wrap); d != "" {
 						w.Input = string(in)
 						for _, c := range in {
 							w.InputRune = append(w.InputRune, int32(c))
